@@ -322,6 +322,9 @@ def run_cases(c: checklib.Check, cases, label):
             n += 1
             if r["outcome"] in ("error", "divergence", "steplimit"):
                 c.machinery_failure(f"pipeline scenario failed in the harness: {r['outcome']} {r['error']} params={r['params']}")
+            hbad = [e for e in r["trace"] if e.get("e") == "uncaught" and str(e.get("th", "")).startswith("h")]
+            if hbad:
+                c.machinery_failure(f"a harness thread raised: {hbad[0]} params={r['params']}")
             if not r["model_ok"]:
                 c.machinery_failure(f"the driver's record of the tree disagrees with the real tree: params={r['params']}")
             h = hashlib.sha1(json.dumps(r["trace"], sort_keys=True, default=str).encode()).hexdigest()
